@@ -9,7 +9,10 @@ use std::collections::{BTreeMap, BTreeSet, HashSet};
 use std::hash::{Hash, Hasher};
 use std::sync::Mutex;
 
-pub const VERIF: &str = "/verif";
+/// Root of the verification tree: the directory of the `check` script (env PTV_ROOT), /verif by default.
+pub fn verif_root() -> String {
+    std::env::var("PTV_ROOT").unwrap_or_else(|_| "/verif".to_string())
+}
 
 thread_local! {
     pub static LAST_PANIC: RefCell<Option<(String, u32, String)>> = RefCell::new(None);
@@ -73,7 +76,7 @@ pub struct KnownFinding {
 }
 
 pub fn load_known() -> Vec<KnownFinding> {
-    let p = format!("{VERIF}/known_findings.json");
+    let p = format!("{}/known_findings.json", crate::engine::verif_root());
     match std::fs::read_to_string(&p) {
         Ok(s) => serde_json::from_str(&s).unwrap_or_else(|e| {
             eprintln!("cannot parse {p}: {e}");
@@ -314,7 +317,7 @@ pub struct ReplayFile {
 }
 
 pub fn write_replay<C: Serialize>(prop_id: &str, label: &str, seed: u64, case: &C, p: &str, sig: &str, msg: &str) -> String {
-    let dir = format!("{VERIF}/out/replays");
+    let dir = format!("{}/out/replays", crate::engine::verif_root());
     let _ = std::fs::create_dir_all(&dir);
     let safe: String = label.chars().map(|c| if c.is_alphanumeric() { c } else { '_' }).collect();
     let path = format!("{dir}/{prop_id}-{safe}-{seed}.json");
@@ -391,7 +394,7 @@ pub fn start_watchdog(prop: String, limit_s: u64) {
         let g = CASE_STARTS.lock().unwrap();
         for (_, t, desc) in g.iter() {
             if t.elapsed().as_secs() >= limit_s {
-                let dir = format!("{VERIF}/out");
+                let dir = format!("{}/out", crate::engine::verif_root());
                 let _ = std::fs::create_dir_all(&dir);
                 let path = format!("{dir}/watchdog-{prop}.json");
                 let _ = std::fs::write(&path, desc);
@@ -457,7 +460,7 @@ pub fn write_evidence(rep: &Report, o: &Outcome) {
         wall_s: rep.wall_s,
         violations: o.violation.is_some() as u64,
     };
-    let dir = format!("{VERIF}/evidence");
+    let dir = format!("{}/evidence", crate::engine::verif_root());
     let _ = std::fs::create_dir_all(&dir);
     std::fs::write(format!("{dir}/{}.json", rep.id), serde_json::to_string_pretty(&ev).unwrap()).unwrap();
 }
